@@ -3,12 +3,13 @@
 use crate::http::response::ResponseError;
 use crate::http::{Request, Response, StatusCode};
 
-use std::io::Write;
+use std::io::{Error, ErrorKind, Read, Write};
 #[cfg(not(humphrey_verif))]
 use std::net::{SocketAddr, TcpStream};
 #[cfg(humphrey_verif)]
 use humsim::net::{SocketAddr, TcpStream};
 use std::time::Duration;
+use std::time::Instant;
 
 /// Proxies a request to the given target, timing out and returning an error 502 after `timeout`.
 /// Always returns a response.
@@ -25,8 +26,14 @@ fn proxy_request_internal(
     target: SocketAddr,
     timeout: Duration,
 ) -> Result<Response, ResponseError> {
+    // The whole exchange, not just the connection attempt, must finish before the deadline.
+    let deadline = Instant::now() + timeout;
+
     let mut stream =
         TcpStream::connect_timeout(&target, timeout).map_err(|_| ResponseError::Stream)?;
+    stream
+        .set_write_timeout(Some(timeout))
+        .map_err(|_| ResponseError::Stream)?;
 
     let mut cloned_request = request.clone();
     cloned_request
@@ -37,5 +44,28 @@ fn proxy_request_internal(
         .write_all(&request_bytes)
         .map_err(|_| ResponseError::Stream)?;
 
-    Response::from_stream(&mut stream)
+    Response::from_stream(&mut DeadlineReader {
+        stream: &stream,
+        deadline,
+    })
+}
+
+/// Reads from the upstream stream, failing once the deadline has passed however slowly or
+///   rarely the upstream sends data.
+struct DeadlineReader<'a> {
+    stream: &'a TcpStream,
+    deadline: Instant,
+}
+
+impl Read for DeadlineReader<'_> {
+    fn read(&mut self, buf: &mut [u8]) -> std::io::Result<usize> {
+        let now = Instant::now();
+
+        if now >= self.deadline {
+            return Err(Error::new(ErrorKind::TimedOut, "upstream timed out"));
+        }
+
+        self.stream.set_read_timeout(Some(self.deadline - now))?;
+        self.stream.read(buf)
+    }
 }
